@@ -214,11 +214,15 @@ func (not NotConditions) Build(builder Builder) {
 				negationBuilder.NegationBuild(builder)
 			} else {
 				builder.WriteString("NOT ")
-				e, wrapInParentheses := c.(Expr)
+				wrapInParentheses := false
+				switch e := c.(type) {
+				case Expr:
+					wrapInParentheses = containsAndOr(e.SQL)
+				case NamedExpr:
+					wrapInParentheses = containsAndOr(e.SQL)
+				}
 				if wrapInParentheses {
-					if wrapInParentheses = containsAndOr(e.SQL); wrapInParentheses {
-						builder.WriteByte('(')
-					}
+					builder.WriteByte('(')
 				}
 
 				c.Build(builder)
@@ -248,11 +252,15 @@ func (not NotConditions) Build(builder Builder) {
 				}
 			}
 
-			e, wrapInParentheses := c.(Expr)
+			wrapInParentheses := false
+			switch e := c.(type) {
+			case Expr:
+				wrapInParentheses = containsAndOr(e.SQL)
+			case NamedExpr:
+				wrapInParentheses = containsAndOr(e.SQL)
+			}
 			if wrapInParentheses {
-				if wrapInParentheses = containsAndOr(e.SQL); wrapInParentheses {
-					builder.WriteByte('(')
-				}
+				builder.WriteByte('(')
 			}
 
 			c.Build(builder)
